@@ -219,6 +219,15 @@ def _dumps_kvn(data, **kwargs):
         data, meta_tag=False, extras={"MEAN_ELEMENT_THEORY": theory}, **kwargs
     )
 
+    if hasattr(data, "tle"):
+        # Orbit created from a TLE
+        ephemeris_type = data.tle.type
+        classification = data.tle.classification
+    else:
+        # Orbit created from an OMM
+        ephemeris_type = data.ephemeris_type
+        classification = data.classification_type
+
     text = """
 EPOCH                = {tle.date:{dfmt}}
 MEAN_MOTION          = {n: 12.8f} [rev/day]
@@ -229,11 +238,11 @@ ARG_OF_PERICENTER    = {omega:8.4f} [deg]
 MEAN_ANOMALY         = {M:8.4f} [deg]
 GM                   = {mu:0.1f} [km**3/s**2]
 
-EPHEMERIS_TYPE       = {tle.tle.type}
-CLASSIFICATION_TYPE  = {tle.tle.classification:}
-NORAD_CAT_ID         = {tle.tle.norad_id}
-ELEMENT_SET_NO       = {tle.tle.element_nb}
-REV_AT_EPOCH         = {tle.tle.revolutions}
+EPHEMERIS_TYPE       = {ephemeris_type}
+CLASSIFICATION_TYPE  = {classification:}
+NORAD_CAT_ID         = {tle.norad_id}
+ELEMENT_SET_NO       = {tle.element_nb}
+REV_AT_EPOCH         = {tle.revolutions}
 BSTAR                = {bstar:6.9f} [1/ER]
 MEAN_MOTION_DOT      = {ndot: 10.8f} [rev/day**2]
 MEAN_MOTION_DDOT     = {ndotdot!r} [rev/day**3]
@@ -244,6 +253,8 @@ MEAN_MOTION_DDOT     = {ndotdot!r} [rev/day**3]
         omega=code_unit(data, "omega", "deg"),
         M=code_unit(data, "M", "deg"),
         tle=data,
+        ephemeris_type=ephemeris_type,
+        classification=classification,
         bstar=code_unit(data, "bstar", "1/ER"),
         ndot=code_unit(data, "ndot", "rev/day**2") / 2,
         ndotdot=code_unit(data, "ndotdot", "rev/day**3") / 6,
